@@ -245,6 +245,12 @@ func (s *Session) bind(o *Config) {
 		return
 	}
 
+	// The bind is confirmed by an IQ result only, not by an error (which may echo the request) or any other element
+	if iq.XMLName.Local != "iq" || iq.Type != stanza.IQTypeResult {
+		s.err = errors.New("iq bind failed: expected an iq result, got <" + iq.XMLName.Local + " type='" + string(iq.Type) + "'>")
+		return
+	}
+
 	// TODO Check all elements
 	switch payload := iq.Payload.(type) {
 	case *stanza.Bind:
@@ -290,6 +296,10 @@ func (s *Session) rfc3921Session() {
 
 		if s.err = s.transport.GetDecoder().Decode(&iq); s.err != nil {
 			s.err = errors.New("expecting iq result after session open: " + s.err.Error())
+			return
+		}
+		if iq.XMLName.Local != "iq" || iq.Type != stanza.IQTypeResult {
+			s.err = errors.New("session open failed: expected an iq result, got <" + iq.XMLName.Local + " type='" + string(iq.Type) + "'>")
 			return
 		}
 	}
